@@ -64,9 +64,15 @@ impl PathAndQueryWithSkipped {
 
         if let Some(query) = path_and_query.query() {
             let hash_query: BTreeMap<_, _> = parse_query(query.as_bytes()).into_owned().collect();
+            let mut sorted_query: Vec<_> = hash_query.iter().collect();
             let mut query_string = "".to_string();
 
-            for (key, value) in &hash_query {
+            if config.ignore_path_and_query_case {
+                // the order of query params must not depend on the case of their keys
+                sorted_query.sort_by_cached_key(|(key, _)| key.to_lowercase());
+            }
+
+            for (key, value) in sorted_query {
                 let mut query_param = "".to_string();
 
                 query_param.push_str(&utf8_percent_encode(key, QUERY_ENCODE_SET).to_string());
